@@ -12,10 +12,14 @@ SPEC = {
                   "guard holds and every resource ever opened is closed (context cancelled, sockets, tun, construction token, DNS server, sshd "
                   "listener); a Stop from any reachable state ends Stopped and released (a Stop racing a half-way Stop returns at once and the "
                   "first one's completion releases); a second Stop is a no-op and nothing restarts, reopens or re-closes afterwards; a Start "
-                  "whose activation fails releases what Main acquired. PARTIAL by design: the theorems are about the lifecycle logic and the "
+                  "whose activation fails releases what Main acquired; Stop's tunnel-closing phase (context already cancelled, interface not yet closed) "
+                  "performs no channel send that only a cancelled goroutine could serve: the one such channel is the lighthouse query channel, and a "
+                  "table regenerated on every run from the real Interface.send (every message type x rebind state x node kind) shows a CloseTunnel "
+                  "never queues a lighthouse query, while in state Stopping such a send would have no live receiver. PARTIAL by design: the theorems are about the lifecycle logic and the "
                   "table; that a goroutine really returns when its guard holds is the modelling assumption the netsim validates: at each phase of "
                   "9 scenario families (stop before start, right after start, mid-handshake, live tunnel under traffic, relayed tunnel, during "
-                  "config reloads, queued lighthouse work, failed start, random configurations) the goroutines found running, by creation "
+                  "config reloads, queued lighthouse work, failed start, rebind + more idle tunnels than handshakes.query_buffer + stop with its three "
+                  "controls, random configurations) the goroutines found running, by creation "
                   "site, must equal the model's activity set, and after Stop + Wait no goroutine of the node may remain, context, sockets and "
                   "tun must be closed, Stop and Wait must return within 5 s (observed: milliseconds).",
     "level_note": "Trusted: Coq kernel; the hand-written state machine (tied by differential testing of operation sequences on the real Control, "
@@ -23,13 +27,14 @@ SPEC = {
                   "census at every phase: a goroutine class missing from or wrongly described in the table fails the census); the Go runtime "
                   "(scheduler, channel and context semantics) and the in-memory udp/tun doubles of the e2e build (the tun double is replaced by one "
                   "that does not panic when written to while closing). Not covered: the real Linux tun/udp backends, stats and pprof servers.",
-    "gens": [],
+    "gens": ["gen_lifecycle"],
     "props": ["props/C49.v"],
     "corr": ["corr/Lifecycle_corr.v"],
     "build_comp": "lifecyclenet",
     "comps": [{"comp": "lifecycle", "n_quick": 250, "n_thorough": 4000},
               {"comp": "lifecyclenet", "n_quick": 1, "n_thorough": 6, "e2e": True, "timeout": 900}],
-    "trusted": ["model/Lifecycle.v: Control.Start/Stop/RebindUDPServer, Interface.Close and onFatal written by hand (tied by the lifecycle correspondence)",
+    "trusted": ["gen/Tab_Lifecycle.v: entries put into LightHouse.queryChan by the real Interface.send on 28 situations (translator by exhaustive evaluation)",
+                "model/Lifecycle.v: Control.Start/Stop/RebindUDPServer, Interface.Close and onFatal written by hand (tied by the lifecycle correspondence)",
                 "model/Lifecycle.v table: goroutine classes, multiplicities, guards and closers written by hand from main.go, control.go, interface.go, "
                 "lighthouse.go, connection_manager.go, firewall/cache.go, dns_server.go, ssh.go, sshd/server.go (validated by the census)",
                 "runtime.Stack parsing and goroutine attribution in go/cmd/harness/c_lifecyclenet.go"],
